@@ -208,30 +208,31 @@ def dkg_actionValidateDkgProposalAwaitResponses (_e : Ev) (p : Payload) (_a : Ar
     .e_event_dkg_response_confirm_canceled_by_error_internal .e_event_dkg_responses_confirmed_internal
     (fun q => .dkgResponses ((orderedIdx q).map (fun (i, x) => (i, x.username, x.response))))
 
+/-- the validator's key comparison: some confirmed key differs from the first confirmed one
+(Go compares every confirmed key with `masterKeys[0]` of a randomly ordered list: "not all equal") -/
+def keyMismatchL (confirmed : List DkgPart) : Bool :=
+  match confirmed with
+  | [] => false
+  | k :: rest => rest.any (fun q => q.masterKey != k.masterKey)
+
+def mkMismatchCond (dc : DkgConf) : Bool :=
+  decide ((dc.quorum.filter (·.status == 10)).length > 1) && keyMismatchL (dc.quorum.filter (·.status == 10))
+
 def dkg_actionValidateDkgProposalAwaitMasterKey (_e : Ev) (p : Payload) (_a : Arg) : AOut :=
   match p.dkg with
   | none => aPanic p
   | some dc =>
     if dc.expiresAt < dc.updatedAt then
       aOk p (some .e_event_dkg_master_key_confirm_canceled_by_timeout_internal) else
-    let hasErr := dc.quorum.any (·.status == 11)
-    let confirmed := dc.quorum.filter (·.status == 10)
-    let unconfirmed : Int := (dc.quorum.length : Int) - (confirmed.length : Int)
-    if hasErr then aOk p (some .e_event_dkg_master_key_confirm_canceled_by_error_internal)
+    if dc.quorum.any (·.status == 11) then aOk p (some .e_event_dkg_master_key_confirm_canceled_by_error_internal)
+    else if mkMismatchCond dc then
+      let q' := dc.quorum.map (fun q => { q with status := 11, error := some "master key is mismatched" })
+      aOk { p with dkg := some { dc with quorum := q' } }
+        (some .e_event_dkg_master_key_confirm_canceled_by_error_internal)
+    else if (dc.quorum.length : Int) - ((dc.quorum.filter (·.status == 10)).length : Int) > 0 then aOk p
     else
-      -- Go iterates the map in random order and compares every confirmed key with the first
-      -- one seen: "some confirmed key differs from another" – order-insensitive.
-      let mismatch := match confirmed with
-        | [] => false
-        | k :: rest => rest.any (fun q => q.masterKey != k.masterKey)
-      if decide (confirmed.length > 1) && mismatch then
-        let q' := dc.quorum.map (fun q => { q with status := 11, error := some "master key is mismatched" })
-        aOk { p with dkg := some { dc with quorum := q' } }
-          (some .e_event_dkg_master_key_confirm_canceled_by_error_internal)
-      else if unconfirmed > 0 then aOk p
-      else
-        let q' := dc.quorum.map (fun q => { q with status := 10 })
-        aOk { p with dkg := some { dc with quorum := q' } } (some .e_event_dkg_master_key_confirmed_internal)
+      let q' := dc.quorum.map (fun q => { q with status := 10 })
+      aOk { p with dkg := some { dc with quorum := q' } } (some .e_event_dkg_master_key_confirmed_internal)
 
 def dkg_actionConfirmationError (inEvent : Ev) (p : Payload) (a : Arg) : AOut :=
   match a with
